@@ -495,7 +495,7 @@ func TestVerifC21ChunksEnum(t *testing.T) {
 	}
 	stride := 2503
 	if os.Getenv("VERIF_TIER") == "thorough" {
-		stride = 503
+		stride = 1009
 	}
 	n := 0
 	run := func(p int, dmg int, bit uint64) {
